@@ -403,6 +403,19 @@ Fixpoint run_actor (cfg : config) (st : sstate) (l : list (netmsg * env))
       (st, m, e, eff) :: (if existsb is_stop eff then [] else run_actor cfg st' r)
   end.
 
+(* what the harness can see of the actor's run: after each handled message,
+   is the session authenticated, would it stop at its next message because it
+   talks to itself, and the effects *)
+Fixpoint run_view (cfg : config) (st : sstate) (l : list (netmsg * env))
+  : list (bool * bool * list effect) :=
+  match l with
+  | [] => []
+  | (m, e) :: r =>
+      let '(st', eff) := handle cfg st m e in
+      (a_is_ok (s_auth st'), self_connection cfg st', eff)
+        :: (if existsb is_stop eff then [] else run_view cfg st' r)
+  end.
+
 End Gate.
 
 (* ---------- the property as an executable oracle ---------- *)
